@@ -1,8 +1,8 @@
 CONSTANTS
   NEin = 3
-  KindSeq <- KT
+  KindSeqs <- K1
   SrcT <- ST3
-  SrcR <- SR3
+  SrcR <- SR2
   Cnts <- Cnts12
   N = 1000000
 INIT RandInit
